@@ -177,6 +177,11 @@ func (s *server) onAccept(conn Conn) {
 	})
 	vp(vpSrvStore, unsafe.Pointer(s), int64(fd), 1)
 	s.connections.Store(fd, nconn)
+	// the connection may have been closed (its events are handled by another poller) before the
+	// untrack callback above was registered or before it was stored: it must not stay tracked for ever
+	if !nconn.IsActive() {
+		s.connections.Delete(fd)
+	}
 
 	// trigger onConnect asynchronously
 	nconn.onConnect()
